@@ -95,8 +95,13 @@ func genCase(r *rand.Rand, idx int) *ccase {
 	}
 	// result-set shapes that only one kind of statement can have: a third of the cases of the endpoints that read a call tree
 	for _, k := range ep.Kinds {
-		if k == rdcat.KProfTree && r.Intn(3) == 0 {
+		if k == rdcat.KProfTree && r.Intn(3) != 0 {
+			// two thirds of the cases of the endpoints that read a call tree: a tree of an unexpected shape (cyclic, or
+			// rows with fewer / other elements than the reader indexes), mostly behind a request the endpoint accepts
 			c.DB.Twist, c.DB.Target = rdcat.TwCycle, -1
+			if r.Intn(2) == 0 {
+				c.DB.Twist = []rdcat.Twist{rdcat.TwShortID, rdcat.TwWrongType, rdcat.TwNull, rdcat.TwStrForNum, rdcat.TwFewCols}[r.Intn(5)]
+			}
 			if r.Intn(4) != 0 {
 				c.DB.Mode = "ok"
 			}
